@@ -17,7 +17,7 @@
 
 struct blist { struct ec_backend *slh_first; };
 extern struct blist active_instances;
-static int registry_len(void) { int n = 0; for (struct ec_backend *b = active_instances.slh_first; b; b = b->link.sle_next) n++; return n; }
+static int registry_len(void) { int n = 0; for (struct ec_backend *b = active_instances.slh_first; b && n < 4096; b = b->link.sle_next) n++; return n; }   /* bounded: a corrupted (cyclic) list must not hang the harness */
 
 enum { C_CREATE, C_ENCODE, C_DEC_FAST, C_DEC_SLOW, C_DEC_FORCED, C_REC_DATA, C_REC_PARITY, C_NEEDED, C_META, NCALL };
 static const char *CN[NCALL] = { "create", "encode", "decode-all-present", "decode-data0-missing-unaligned", "decode-forced-checks-two-missing", "reconstruct-data0", "reconstruct-parity0-unaligned", "fragments_needed", "metadata+validation" };
